@@ -621,6 +621,27 @@ func checkC17(w *World) {
 		w.undecided(P, "R17.1", "HTML adapter", 0, "parser.htmlParser.Pull not found")
 		return
 	}
+	// the adapter = Pull and the functions of the package it was split into (methods on the same receiver and plain
+	// helpers reached by static calls); every rule below looks at all of them, each function with its own guards
+	scopeSet := map[*ssa.Function]bool{}
+	var scope []*ssa.Function
+	for g := range staticReach(pull, func(x *ssa.Function) bool { return fnPkgKey(x) == "parser" }) {
+		if fnPkgKey(g) == "parser" {
+			scopeSet[g] = true
+			scope = append(scope, g)
+		}
+	}
+	sortFuncs(scope)
+	allScope := func(visit func(ssa.Instruction)) {
+		for _, g := range scope {
+			allInstrs(g, visit)
+		}
+	}
+	recvT := pull.Params[0].Type()
+	isRecv := func(v ssa.Value) bool {
+		p, ok := v.(*ssa.Parameter)
+		return ok && scopeSet[p.Parent()] && len(p.Parent().Params) > 0 && p == p.Parent().Params[0] && types.Identical(p.Type(), recvT)
+	}
 	// roles of the adapter's state fields, by what Pull does under each flag (never by field name):
 	//   cursor: the field of type *html.Node; self-close flag: tested true => an end event is returned and the cursor
 	//   stays; emitted flag: tested true => the cursor advances to FirstChild/NextSibling; climb flag: => to Parent.
@@ -632,13 +653,13 @@ func checkC17(w *World) {
 			return nil, false
 		}
 		fa, ok := ld.X.(*ssa.FieldAddr)
-		if !ok || len(pull.Params) == 0 || fa.X != ssa.Value(pull.Params[0]) {
+		if !ok || !isRecv(fa.X) {
 			return nil, false
 		}
 		return fa, true
 	}
-	allInstrs(pull, func(in ssa.Instruction) {
-		if fa, ok := in.(*ssa.FieldAddr); ok && len(pull.Params) > 0 && fa.X == ssa.Value(pull.Params[0]) {
+	allScope(func(in ssa.Instruction) {
+		if fa, ok := in.(*ssa.FieldAddr); ok && isRecv(fa.X) {
 			if pt, ok := fa.Type().(*types.Pointer).Elem().(*types.Pointer); ok {
 				if n, ok := pt.Elem().(*types.Named); ok && n.Obj().Name() == "Node" && n.Obj().Pkg() != nil && n.Obj().Pkg().Path() == "golang.org/x/net/html" {
 					cursorField = fa.Field
@@ -646,7 +667,7 @@ func checkC17(w *World) {
 			}
 		}
 	})
-	allInstrs(pull, func(in ssa.Instruction) {
+	allScope(func(in ssa.Instruction) {
 		ifi, ok := in.(*ssa.If)
 		if !ok {
 			return
@@ -660,11 +681,14 @@ func checkC17(w *World) {
 		}
 		endRet, moves := false, map[string]bool{}
 		tb := ifi.Block().Succs[0]
-		for _, b := range pull.Blocks {
-			if !tb.Dominates(b) {
-				continue
+		var region []*ssa.BasicBlock
+		for _, b := range ifi.Parent().Blocks {
+			if tb.Dominates(b) {
+				region = append(region, b)
 			}
-			for _, bin := range b.Instrs {
+		}
+		{
+			withCallees(region, "parser", pull, func(bin ssa.Instruction) {
 				switch x := bin.(type) {
 				case *ssa.Return:
 					if len(x.Results) == 3 && isNilConst(x.Results[0]) && isNilConst(x.Results[2]) {
@@ -673,15 +697,26 @@ func checkC17(w *World) {
 						}
 					}
 				case *ssa.Store:
-					if sfa, ok := x.Addr.(*ssa.FieldAddr); ok && sfa.X == ssa.Value(pull.Params[0]) && sfa.Field == cursorField {
+					if sfa, ok := x.Addr.(*ssa.FieldAddr); ok && isRecv(sfa.X) && sfa.Field == cursorField {
 						if ld, ok := x.Val.(*ssa.UnOp); ok {
 							if lfa, ok := ld.X.(*ssa.FieldAddr); ok {
 								moves[fieldName(lfa)] = true
 							}
 						}
+						// a two-hop move (parent's next sibling) counts as a move to the parent
+						if sliceContains(x.Val, func(v ssa.Value) bool {
+							if ld, ok := v.(*ssa.UnOp); ok {
+								if lfa, ok := ld.X.(*ssa.FieldAddr); ok && fieldName(lfa) == "Parent" {
+									return true
+								}
+							}
+							return false
+						}) {
+							moves["Parent"] = true
+						}
 					}
 				}
-			}
+			})
 		}
 		switch {
 		case endRet && len(moves) == 0:
@@ -693,7 +728,7 @@ func checkC17(w *World) {
 		}
 	})
 	isFlag := func(fa *ssa.FieldAddr, role string) bool {
-		return len(pull.Params) > 0 && fa.X == ssa.Value(pull.Params[0]) && flagRole[fa.Field] == role
+		return isRecv(fa.X) && flagRole[fa.Field] == role
 	}
 	// node type constants of x/net/html
 	typeNames := map[int64]string{}
@@ -716,7 +751,7 @@ func checkC17(w *World) {
 		}
 	}
 	arms := map[string]*ssa.If{}
-	allInstrs(pull, func(in ssa.Instruction) {
+	allScope(func(in ssa.Instruction) {
 		ifi, ok := in.(*ssa.If)
 		if !ok {
 			return
@@ -839,7 +874,7 @@ func checkC17(w *World) {
 	}
 	// the attribute builder and the stripping helper
 	var attrBuilder, strip *ssa.Function
-	allInstrs(pull, func(in ssa.Instruction) {
+	allScope(func(in ssa.Instruction) {
 		c, ok := in.(*ssa.Call)
 		if !ok {
 			return
@@ -916,13 +951,22 @@ func checkC17(w *World) {
 
 	// R17.3
 	synth := false
-	allInstrs(pull, func(in ssa.Instruction) {
+	allScope(func(in ssa.Instruction) {
 		st, ok := in.(*ssa.Store)
 		if !ok {
 			return
 		}
 		fa, ok := st.Addr.(*ssa.FieldAddr)
 		if !ok || !isFlag(fa, "selfclose") {
+			return
+		}
+		// the flag may be assigned the test itself: flag = (FirstChild == nil)
+		if bo, ok := st.Val.(*ssa.BinOp); ok && isNilConst(bo.Y) && bo.Op == token.EQL {
+			if ld, ok := bo.X.(*ssa.UnOp); ok {
+				if fa2, ok := ld.X.(*ssa.FieldAddr); ok && fieldName(fa2) == "FirstChild" {
+					synth = true
+				}
+			}
 			return
 		}
 		c, ok := st.Val.(*ssa.Const)
@@ -941,7 +985,7 @@ func checkC17(w *World) {
 	})
 	// ... and under nothing else that depends on the DOM (iff)
 	extra := ""
-	allInstrs(pull, func(in ssa.Instruction) {
+	allScope(func(in ssa.Instruction) {
 		st, ok := in.(*ssa.Store)
 		if !ok {
 			return
@@ -971,7 +1015,7 @@ func checkC17(w *World) {
 	w.check(P, "R17.3", "synthetic end only for childless elements", pull.Pos(), synth && extra == "", fmt.Sprintf("the self-closing flag is set under FirstChild == nil: %v; additionally conditioned on %s (then a childless element in that position never gets its end event and everything after it nests one level too deep)", synth, orNone(extra)))
 	eofGuard := false
 	eofReturns, eofGuarded := 0, 0
-	allInstrs(pull, func(in ssa.Instruction) {
+	allScope(func(in ssa.Instruction) {
 		ret, ok := in.(*ssa.Return)
 		if !ok || len(ret.Results) != 3 {
 			return
@@ -1010,13 +1054,13 @@ func checkC17(w *World) {
 		link string
 	}
 	var steps []step
-	allInstrs(pull, func(in ssa.Instruction) {
+	allScope(func(in ssa.Instruction) {
 		st, ok := in.(*ssa.Store)
 		if !ok {
 			return
 		}
 		fa, ok := st.Addr.(*ssa.FieldAddr)
-		if !ok || fa.X != ssa.Value(pull.Params[0]) {
+		if !ok || !isRecv(fa.X) {
 			return
 		}
 		if _, isNodePtr := fa.Type().(*types.Pointer).Elem().(*types.Pointer); !isNodePtr {
@@ -1079,6 +1123,16 @@ func checkC17(w *World) {
 			for _, s2 := range steps {
 				if s2.link == "Parent" && instrAfter(s2.st, s.st) {
 					climbed = true
+				}
+			}
+			// ... or the sibling is the parent's (both hops in one assignment)
+			if ld, ok := s.st.Val.(*ssa.UnOp); ok {
+				if lfa, ok := ld.X.(*ssa.FieldAddr); ok {
+					if bl, ok := lfa.X.(*ssa.UnOp); ok {
+						if bfa, ok := bl.X.(*ssa.FieldAddr); ok && fieldName(bfa) == "Parent" {
+							climbed = true
+						}
+					}
 				}
 			}
 			fc, fcTested := lt["FirstChild"]
@@ -1166,13 +1220,13 @@ func checkC17(w *World) {
 	// every move of the cursor is along a link of the current node: FirstChild, NextSibling or Parent read from it
 	// (a cursor computed any other way - a search for the first element, a cached node - skips or repeats nodes)
 	if cursorField >= 0 {
-		allInstrs(pull, func(in ssa.Instruction) {
+		allScope(func(in ssa.Instruction) {
 			st, ok := in.(*ssa.Store)
 			if !ok {
 				return
 			}
 			fa, ok := st.Addr.(*ssa.FieldAddr)
-			if !ok || fa.X != ssa.Value(pull.Params[0]) || fa.Field != cursorField {
+			if !ok || !isRecv(fa.X) || fa.Field != cursorField {
 				return
 			}
 			okLink := false
